@@ -305,7 +305,7 @@ class Runner:
             k = None if keys is None else keys[r]
             w, x = self.lib.call(base, r * per, (r + 1) * per, wts, z, comm=comm, key=k)
             return ([np.asarray(w[0]), np.asarray(w[1])] if isinstance(w, (list, tuple)) else np.asarray(w)), np.asarray(x)
-        world = tc.ThreadWorld(ranks, schedule=sched, eager=eager, timeout=20.0)
+        world = tc.ThreadWorld(ranks, schedule=sched, eager=eager, timeout=15.0)
         rr = tc.run_ranks(world, fn)
         self.mpi_runs += 1
         return rr
@@ -318,6 +318,8 @@ class Runner:
         base = parts[0]
         commspec = next((p for p in parts[1:] if p == "nac" or p.startswith("T")), None)
         info = {"impl": name, "w": [float(x) for x in wts], "zeta": zeta}
+        if self.fail_sites.get(base + str(commspec), 0) >= 8:
+            return None            # this call site already failed 8 times with an exception / protocol error
         try:
             if commspec is None or commspec == "nac":
                 comm = lib.config.not_a_comm() if commspec == "nac" else None
@@ -337,6 +339,7 @@ class Runner:
                     raise MachineryError(f"{name}: TLC schedule {sched} (eager={eager}) could not be replayed "
                                          f"although the code issues the modelled collectives: {rr.describe()}")
                 info.update({"schedule": sched, "eager": eager, "ops_per_rank": [[o[0] for o in ops] for ops in rr.ops]})
+                self.fail_sites[base + str(commspec)] = self.fail_sites.get(base + str(commspec), 0) + 1
                 self.chk.violation(site_of(name, "collectives"),
                                    f"{name}: the ranks' collectives do not match / cannot complete "
                                    f"({rr.describe()}); collectives issued per rank: {info['ops_per_rank']}", info)
@@ -347,6 +350,7 @@ class Runner:
         except MachineryError:
             raise
         except Exception as e:      # noqa: BLE001 - an exception of the library on a valid input is a finding
+            self.fail_sites[base + str(commspec)] = self.fail_sites.get(base + str(commspec), 0) + 1
             self.chk.violation(site_of(name, "exception"), f"{name} raised {type(e).__name__}: {e} "
                                f"(weights {info['w']}, zeta {zeta})", info)
             return None
@@ -643,7 +647,7 @@ def replay(chk: Check, case):
     c = case["case"]
     lib = Lib()
     rng = pyrandom.Random(case.get("seed", 0))
-    table = schedules(chk)
+    table = schedules(chk) if "@T" in c["impl"] else {}
     picker = SchedulePicker(table)
     w = c["w"]
     W = sum(abs(x) for x in w)
